@@ -1,0 +1,5 @@
+//go:build !verif
+
+package linker
+
+func verifEvent(name string, kv ...any) {}
